@@ -119,7 +119,7 @@ func (g *G) genCompileOp1(nNames int, ver *int) *compileOp {
 	}
 	var b strings.Builder
 	for _, id := range ids[:k] {
-		sal := g.Range(0, 4) - 2
+		sal := g.Salience(2) // now and then a boundary value (±MaxInt64, ±2^62 ...): positions are computed from saliences
 		op.Rules = append(op.Rules, MRuleDef{id, sal, *ver})
 		b.WriteString(g.richRule(id, sal, *ver))
 	}
